@@ -438,8 +438,11 @@ fn run_query<'s>(
     kw: &str,
     tvar: Option<&ResultTextSelection<'s>>,
     avar: Option<&ResultItem<'s, Annotation>>,
+    secondary: bool,
 ) -> Result<Vec<(usize, usize, bool)>, String> {
-    let qs = format!("SELECT TEXT ?x WHERE RELATION ?ref {};", kw);
+    // secondary: the RELATION constraint comes after another constraint and is evaluated as a filter over the
+    // known selections of the resource (a different implementation from the index-driven first position)
+    let qs = if secondary { format!("SELECT TEXT ?x WHERE RESOURCE \"r\"; RELATION ?ref {};", kw) } else { format!("SELECT TEXT ?x WHERE RELATION ?ref {};", kw) };
     let (mut q, _) = Query::parse(&qs).map_err(|e| format!("parse: {}", e))?;
     if let Some(t) = tvar {
         q.bind_textvar("ref", t);
@@ -465,7 +468,7 @@ impl Property for C06 {
         "C06"
     }
     fn rule(&self) -> String {
-        "case = (text of 0-48 (thorough: 0-64) codepoints built from word and whitespace runs, half of them with 2-4 byte characters and tab/newline/U+3000 whitespace, some runs longer than the whitespace limit; 1-12 (thorough: 1-16) known selections placed on shared anchor positions (nested, crossing, adjacent, same begin/end, zero-width, touching the end of the text, anywhere), some of whose annotations are removed again; a reference = bound or unbound selection | annotation over 1-3 selections (TextSelector, Multi-, Composite- or DirectionalSelector) | explicit TextSelectionSet of 1-3 bound/unbound selections, half of them sort()ed; a second resource with the same text and annotations on the same offsets is always present and must never show up). Every case is evaluated under all 96 operator/modifier combinations (Equals, Overlaps, Embeds, SameBegin, SameEnd x all x negate; Embedded, Before, After x all x negate x limit{None,0,1,3,10}; Precedes, Succeeds x all x negate x allow_whitespace) through ResultTextSelection::related_text, ResultItem<TextSelection>::related_text, ResultItem<Annotation>::related_text, ResultTextSelectionSet::related_text, ResultItem<TextResource>::related_text, annotation.textselections().related_text (TextSelectionIterator, 'each selection separately') and (for the ten keyword forms) SELECT TEXT ?x WHERE RELATION ?ref <OP> with a text or annotation variable; the answer is compared with a brute-force scan of all known selections under the interval-arithmetic relation definitions (completeness, soundness, each once, textual order where documented). Enumerated part: every range of a small text known, every range as reference (and every pair of ranges as a set). Non-trivial = at least 3 known selections and, for some positive operator, both a related and an unrelated candidate; distinct = distinct case JSON.".into()
+        "case = (text of 0-48 (thorough: 0-64) codepoints built from word and whitespace runs, half of them with 2-4 byte characters and tab/newline/U+3000 whitespace, some runs longer than the whitespace limit; 1-12 (thorough: 1-16) known selections placed on shared anchor positions (nested, crossing, adjacent, same begin/end, zero-width, touching the end of the text, anywhere), some of whose annotations are removed again; a reference = bound or unbound selection | annotation over 1-3 selections (TextSelector, Multi-, Composite- or DirectionalSelector) | explicit TextSelectionSet of 1-3 bound/unbound selections, half of them sort()ed; a second resource with the same text and annotations on the same offsets is always present and must never show up). Every case is evaluated under all 96 operator/modifier combinations (Equals, Overlaps, Embeds, SameBegin, SameEnd x all x negate; Embedded, Before, After x all x negate x limit{None,0,1,3,10}; Precedes, Succeeds x all x negate x allow_whitespace) through ResultTextSelection::related_text, ResultItem<TextSelection>::related_text, ResultItem<Annotation>::related_text, ResultTextSelectionSet::related_text, ResultItem<TextResource>::related_text, annotation.textselections().related_text (TextSelectionIterator, 'each selection separately') and (for the ten keyword forms) SELECT TEXT ?x WHERE RELATION ?ref <OP> with a text or annotation variable, as the first constraint and as a filter after RESOURCE \"r\"; the answer is compared with a brute-force scan of all known selections under the interval-arithmetic relation definitions (completeness, soundness, each once, textual order where documented). Enumerated part: every range of a small text known, every range as reference (and every pair of ranges as a set). Non-trivial = at least 3 known selections and, for some positive operator, both a related and an unrelated candidate; distinct = distinct case JSON.".into()
     }
     fn assumptions(&self) -> Vec<String> {
         vec![
@@ -478,7 +481,7 @@ impl Property for C06 {
         ]
     }
     fn cases(&self, tier: Tier) -> u64 {
-        tier.pick(60_000, 1_500_000)
+        tier.pick(500_000, 8_000_000)
     }
     fn exhaustive_note(&self, tier: Tier) -> Option<String> {
         Some(match tier {
@@ -818,10 +821,12 @@ impl Property for C06 {
                         push(&mut out, "ResultItem<TextSelection>::related_text", false, false, catch(|| collect(item.related_text(sop))));
                     }
                     if let Some(kw) = query_keyword(op) {
-                        match catch(|| run_query(store, kw, Some(&refsel[0]), None)) {
-                            Ok(Ok(items)) => answers.push(Answer { entry: "query:RELATION(textvar)", items, union: false, ordered: false }),
-                            Ok(Err(e)) => out.fail("query", format!("{}|error", opsig), format!("RELATION query with text variable failed: {}", e)),
-                            Err(p) => out.fail("panic", format!("{}|ref={}|{}", opsig, rclass, p.signature()), format!("RELATION query panicked at {}:{}: {}", p.file, p.line, p.msg)),
+                        for secondary in [false, true] {
+                            match catch(|| run_query(store, kw, Some(&refsel[0]), None, secondary)) {
+                                Ok(Ok(items)) => answers.push(Answer { entry: if secondary { "query:RESOURCE;RELATION(textvar)" } else { "query:RELATION(textvar)" }, items, union: false, ordered: false }),
+                                Ok(Err(e)) => out.fail("query", format!("{}|error", opsig), format!("RELATION query with text variable failed: {}", e)),
+                                Err(p) => out.fail("panic", format!("{}|ref={}|{}", opsig, rclass, p.signature()), format!("RELATION query panicked at {}:{}: {}", p.file, p.line, p.msg)),
+                            }
                         }
                     }
                 }
@@ -835,10 +840,12 @@ impl Property for C06 {
                         a.textselections().related_text(sop).map(|t| obs(&t)).collect()
                     }));
                     if let Some(kw) = query_keyword(op) {
-                        match catch(|| run_query(store, kw, None, Some(a))) {
-                            Ok(Ok(items)) => answers.push(Answer { entry: "query:RELATION(annotationvar)", items, union: true, ordered: false }),
-                            Ok(Err(e)) => out.fail("query", format!("{}|error", opsig), format!("RELATION query with annotation variable failed: {}", e)),
-                            Err(p) => out.fail("panic", format!("{}|ref={}|{}", opsig, rclass, p.signature()), format!("RELATION query panicked at {}:{}: {}", p.file, p.line, p.msg)),
+                        for secondary in [false, true] {
+                            match catch(|| run_query(store, kw, None, Some(a), secondary)) {
+                                Ok(Ok(items)) => answers.push(Answer { entry: if secondary { "query:RESOURCE;RELATION(annotationvar)" } else { "query:RELATION(annotationvar)" }, items, union: true, ordered: false }),
+                                Ok(Err(e)) => out.fail("query", format!("{}|error", opsig), format!("RELATION query with annotation variable failed: {}", e)),
+                                Err(p) => out.fail("panic", format!("{}|ref={}|{}", opsig, rclass, p.signature()), format!("RELATION query panicked at {}:{}: {}", p.file, p.line, p.msg)),
+                            }
                         }
                     }
                 }
